@@ -161,3 +161,15 @@ Theorem C06_src_compute_bounds : forall g,
   validb g = true -> Source.compute_bounds_py g = py_compute_bounds g.
 Proof. exact SrcConversion.src_compute_bounds_valid. Qed.
 Print Assumptions C06_src_compute_bounds.
+
+(* the area branch as READ FROM THE SOURCE (everything after `shp2 = geometry_to_shapely(geometry2)`; the two areas and
+   the intersection area are parameters): the zero-union guard, the division and the clamp to 1 *)
+Theorem C06_src_affinity_area : forall a1 a2 i,
+  exists q, Source.compute_affinity_area_tail a1 a2 i = Ok q /\ q == affinity_area a1 a2 i.
+Proof. exact SrcAffinity.src_affinity_area. Qed.
+Print Assumptions C06_src_affinity_area.
+
+Theorem C06_src_area_range : forall a1 a2 i, 0 <= i -> i <= a1 + a2 ->
+  exists q, Source.compute_affinity_area_tail a1 a2 i = Ok q /\ 0 <= q /\ q <= 1.
+Proof. exact SrcAffinity.src_area_range. Qed.
+Print Assumptions C06_src_area_range.
